@@ -65,6 +65,7 @@ type Runner struct {
 	DirectBlockWrites                                                                                          int
 	DeepWalks                                                                                                  int // lookups whose answer lies 20 or more links behind the queried block
 	CappedLookups                                                                                              int
+	QueryTxns                                                                                                  int
 	lset                                                                                                       map[int]bool
 	VeryDeepWalks                                                                                              int             // ... 100 or more links
 	lookedAt                                                                                                   map[string]bool // key@block looked up at state level
@@ -194,7 +195,21 @@ func (r *Runner) lookupState(key, hash string, viaQuery bool) {
 	want, found, must := r.stateTruth(key, hash)
 	var got statecache.Value
 	var ok bool
-	if viaQuery {
+	if viaQuery && gen.Chance(r.RT, 35, "querytxn") {
+		// a read-only caller that runs a transaction on top of the query view: the lookup goes through it, then it writes
+		// and removes the key speculatively (own uncommitted writes come first) and is thrown away
+		tc := statecache.NewTransactionCache(statecache.NewQueryBlockCache(r.SC, hash))
+		got, ok = tc.Get(key)
+		tc.Set(key, r.H.Make("speculative"))
+		if g2, ok2 := tc.Get(key); !ok2 || r.H.Read(g2) != "speculative" {
+			r.Failf("transaction over the query view of %s: after its own Set(%s) the lookup returns %v (found %v)", hash, key, g2, ok2)
+		}
+		tc.Remove(key)
+		if g3, ok3 := tc.Get(key); ok3 {
+			r.Failf("transaction over the query view of %s: after its own Remove(%s) the lookup still hits %q", hash, key, r.H.Read(g3))
+		}
+		r.QueryTxns++
+	} else if viaQuery {
 		got, ok = statecache.NewQueryBlockCache(r.SC, hash).Get(key)
 	} else {
 		got, ok = r.SC.Get(key, hash)
